@@ -164,8 +164,9 @@ func atomScenarioT(ty int, init int, prog [][]call, bound int) schk.Scenario {
 // ---------------------------------------------------------------- Pool
 
 type tok struct {
-	id   int
-	held int
+	id    int
+	held  int
+	stale bool // minted by a New function that has since been replaced
 }
 
 type prec struct {
@@ -208,6 +209,9 @@ func (r *prec) run(th int, prog string, withNew bool) {
 				r.log[th] += "nil "
 				continue
 			}
+			if t.stale {
+				r.fail("stale-new", "thread %d: Get returned a product of a New function that was replaced before (never Put into the pool)", th)
+			}
 			if t.held != 0 {
 				r.fail("handed-out-twice", "thread %d got token %d from Get while another Get caller still holds it", th, t.id)
 			}
@@ -238,7 +242,17 @@ func poolScenario(withNew bool, progs []string, bound int) schk.Scenario {
 // crowdedPool: like poolScenario, but `idle` items have been Put before the threads start (an
 // implementation that keeps its own free list behaves differently above some size).
 func crowdedPool(withNew bool, idle int, progs []string, bound, raceBound int) schk.Scenario {
+	return poolScenarioX(withNew, idle, false, progs, bound, raceBound)
+}
+
+// poolScenarioX; switched: before the threads start the pool had ANOTHER New function, one Get was made
+// with it, and New was then replaced (by the scenario's New, or by nil). New is read when Get needs it: no
+// later Get may return a product of the replaced function.
+func poolScenarioX(withNew bool, idle int, switched bool, progs []string, bound, raceBound int) schk.Scenario {
 	name := fmt.Sprintf("Pool/new=%v|%v", withNew, progs)
+	if switched {
+		name = fmt.Sprintf("Pool/new=%v after another New was replaced|%v", withNew, progs)
+	}
 	if idle > 0 {
 		name = fmt.Sprintf("Pool/new=%v/%d-idle-items|%v", withNew, idle, progs)
 	}
@@ -246,6 +260,13 @@ func crowdedPool(withNew bool, idle int, progs []string, bound, raceBound int) s
 		Name: name, Bound: bound, RaceBound: raceBound, MaxSteps: 20000 + 200*idle,
 		Body: func(s *vrt.Sched) any {
 			r := &prec{p: new(sync2.Pool[*tok]), log: make([]string, len(progs))}
+			if switched {
+				r.p.New = func() *tok { return &tok{id: 9000, stale: true} }
+				if t := r.p.Get(); t == nil || !t.stale {
+					r.fail("pool-new", "the first Get on an empty pool with New set did not return New's result")
+				}
+				r.p.New = nil
+			}
 			if withNew {
 				r.p.New = r.mint
 			}
@@ -393,6 +414,11 @@ func main() {
 				}
 			}
 			scs = append(scs, poolScenario(withNew, []string{"GP", "GP", "GP", "GP"}, 3), poolScenario(withNew, []string{"NG", "GP", "G", "GYP"}, 3))
+		}
+	}
+	for _, withNew := range []bool{true, false} {
+		for _, pp := range [][]string{{"G"}, {"GP", "G"}, {"GG", "GP"}, {"NG", "G"}, {"GPG"}} {
+			scs = append(scs, poolScenarioX(withNew, 0, true, pp, -1, 1))
 		}
 	}
 	for _, idle := range []int{15, 16, 63, 64, 255, 256, 1023, 1024, 4095, 4096} {
